@@ -25,6 +25,7 @@ let cmd_queue toks =
         out "P"; out (hx !q.q_next);
         List.iter (fun v -> out (hx v)) (q_peek 0.0 !q);
         q := q_advance fl 0.0 !q; go rest
+      | "R" :: rest -> out "R"; List.iter (fun v -> out (hx v)) (q_peek 0.0 !q); go rest
       | "C" :: rest -> q := q_copy !q; out "C"; dump !q; go rest
       | "K" :: rest -> out "K"; dump (q_clear_copy 0.0 !q); go rest
       | "T" :: t :: rest -> q := q_set_time fl !q (fl_of_string t); go rest
